@@ -1,5 +1,6 @@
 import Driver.C20
 import Driver.C16
+import Driver.C12
 import Driver.C14
 import Driver.C09
 import Driver.C07
@@ -21,6 +22,7 @@ def step (st : St) (line : String) : St × String :=
   match (line.trimAscii.toString.splitOn " ").filter (· ≠ "") with
   | "c20" :: rest => (st, C20.handle rest)
   | "c16" :: rest => (st, C16.handle rest)
+  | "c12" :: rest => (st, C12.handle rest)
   | "c14" :: rest => let (s, o) := C14.step st.c14 rest; ({ st with c14 := s }, o)
   | "c09" :: rest => let (s, o) := C09.step st.c09 rest; ({ st with c09 := s }, o)
   | "c07" :: rest => let (s, o) := C07.step st.c07 rest; ({ st with c07 := s }, o)
